@@ -718,6 +718,9 @@ func handleFlush(params internal.HandlerFuncParams) ([]byte, error) {
 }
 
 func handleRandomkey(params internal.HandlerFuncParams) ([]byte, error) {
+	if _, err := randomKeyFunc(params.Command); err != nil {
+		return nil, err
+	}
 
 	key := params.Randomkey(params.Context)
 
